@@ -1,4 +1,5 @@
 import Litep2pVerif.Proofs.Addr.Reach
+import Litep2pVerif.Proofs.Addr.Listener
 import Litep2pVerif.Generated.Consts
 /-!
 # C10 — Peer address book stays bounded, attributable and dialable
@@ -343,6 +344,249 @@ example :
     (let m : Mgr := { Mgr.init 0 true (some 4) 64 scores with peers := [(1, ⟨.disconnected, s⟩)], usedOut := 2 }
      (m.dial 1).2 = .started 0 (some [a 2, a 4])) := by decide
 
+/-! ## Listen addresses (`SocketListener::new`), local dial addresses, DNS lookup, public addresses -/
+
+/-- **Every listen address the listener reports is one the transport's own parser accepts and maps
+back to a bound socket**: for every configured address list, every outcome of the operating
+system's bind attempts (`os`) and every interface list, a reported address is `ip/tcp` without a
+peer, `multiaddr_to_socket_address` returns exactly the socket address it was made from, its port is
+the local port of one of the listeners, and its IP is that listener's IP or — for a listener bound
+to the unspecified address — an interface address of the same family. -/
+theorem listen_address_roundtrip (ifaces : Option (List IpAddr)) (os : List (Option Nat))
+    (addrs : List Multiaddr) (m : Multiaddr) (hm : m ∈ reportedAddrs (bindAll ifaces os addrs)) :
+    ∃ b ∈ bindAll ifaces os addrs, ∃ s ∈ b.reported,
+      m = socketToMultiaddr s ∧ tcpParse m = .ok ⟨s.ip.host, s.port, none⟩ ∧ bindTarget m = some s ∧
+      s.port = b.sock.port ∧
+      (s.ip = b.sock.ip ∨
+        (b.sock.ip.isUnspecified = true ∧ s.ip.isV4 = b.sock.ip.isV4 ∧ ∃ l, ifaces = some l ∧ s.ip ∈ l)) := by
+  obtain ⟨b, hb, s, hs, rfl⟩ := mem_reportedAddrs hm
+  obtain ⟨hw, _⟩ := bindAll_spec ifaces addrs os b hb
+  refine ⟨b, hb, s, hs, rfl, tcpParse_socketToMultiaddr s, bindTarget_socketToMultiaddr s, (hw s hs).1, ?_⟩
+  rcases (hw s hs).2 with ⟨_, heq⟩ | h
+  · exact Or.inl heq
+  · exact Or.inr h
+
+example :
+    let lo : Ip := ⟨2130706433, false, true, false⟩
+    let eth : Ip := ⟨3221225986, false, false, false⟩
+    let un : Ip := ⟨0, true, false, false⟩
+    let ll : Ip := ⟨0xfe80 * 2 ^ 112 + 1, false, false, false⟩
+    let bs := bindAll (some [.v4 lo, .v4 eth, .v6 ll]) [some 4001, none, some 4002, some 4003]
+      [[.ip4 lo, .tcp 0], [.dns 5, .tcp 0], [.ip4 eth, .tcp 7], [.ip4 un, .tcp 0], [.ip4 lo, .udp 1], [.ip6 un, .tcp 0]]
+    reportedAddrs bs = [[.ip4 lo, .tcp 4001], [.ip4 lo, .tcp 4002], [.ip4 eth, .tcp 4002]] ∧
+    bs.map (·.sock) = [⟨.v4 lo, 4001⟩, ⟨.v4 un, 4002⟩, ⟨.v6 un, 4003⟩] := by decide
+
+/-- **Only `ip4|ip6 / tcp` addresses are bound**: every listener stems from a configured address
+the TCP parser accepts as a socket address with the listener's IP; a DNS address never produces a
+listener; there are at most as many listeners as configured addresses. -/
+theorem listener_binds_only_sockets (ifaces : Option (List IpAddr)) (os : List (Option Nat))
+    (addrs : List Multiaddr) :
+    (∀ b ∈ bindAll ifaces os addrs, ∃ a ∈ addrs, ∃ t rest, bindTarget a = some t ∧ b.sock.ip = t.ip ∧
+        a = t.ip.comp :: .tcp t.port :: rest) ∧
+    (bindAll ifaces os addrs).length ≤ addrs.length ∧
+    (∀ h rest more, bindAll ifaces os ((.dns h :: rest) :: more) = bindAll ifaces os more ∧
+      bindAll ifaces os ((.dns4 h :: rest) :: more) = bindAll ifaces os more ∧
+      bindAll ifaces os ((.dns6 h :: rest) :: more) = bindAll ifaces os more) := by
+  refine ⟨?_, bindAll_length ifaces addrs os, ?_⟩
+  · intro b hb
+    obtain ⟨_, a, ha, t, ht, hip, _⟩ := bindAll_spec ifaces addrs os b hb
+    obtain ⟨rest, hr⟩ := bindTarget_shape ht
+    exact ⟨a, ha, t, rest, ht, hip, hr⟩
+  · intro h rest more
+    obtain ⟨h1, h2, h3⟩ := bindTarget_dns h rest
+    refine ⟨?_, ?_, ?_⟩
+    · rw [bindAll]; simp [h1]
+    · rw [bindAll]; simp [h2]
+    · rw [bindAll]; simp [h3]
+
+example : bindAll (some []) [some 1, some 2] [[.dns 5, .tcp 0], [.ip4 ⟨9, false, false, true⟩, .tcp 0, .p2p 3]] =
+    [⟨⟨.v4 ⟨9, false, false, true⟩, 1⟩, [⟨.v4 ⟨9, false, false, true⟩, 1⟩]⟩] := by decide
+
+/-- **A reported listen address is dialable by others and recognised as local by the node itself**:
+if no interface address is unspecified, a reported address with any `/p2p` appended passes
+`supported_transport`, and once registered as a listen address `is_local_address` refuses to
+remember it (with or without a peer id) — so the node never stores its own listen addresses. -/
+theorem reported_dialable_and_local (ifaces : Option (List IpAddr)) (os : List (Option Nat))
+    (addrs : List Multiaddr) (m : Multiaddr) (hm : m ∈ reportedAddrs (bindAll ifaces os addrs))
+    (hif : ∀ l, ifaces = some l → ∀ i ∈ l, i.isUnspecified = false) (q localPeer : Nat)
+    (listen listen' : List Multiaddr) (hreg : registerListen localPeer listen m = some listen') :
+    supportedTransport true (withP2p m q) = true ∧ isLocalAddress listen' (withP2p m q) = true ∧
+      isLocalAddress listen' m = true := by
+  obtain ⟨b, hb, s, hs, rfl⟩ := mem_reportedAddrs hm
+  obtain ⟨hw, _⟩ := bindAll_spec ifaces addrs os b hb
+  have hun : s.ip.isUnspecified = false := by
+    rcases (hw s hs).2 with ⟨hu, heq⟩ | ⟨_, _, l, hl, hmem⟩
+    · rw [heq]; exact hu
+    · exact hif l hl s.ip hmem
+  have hreg' : listen' = listen ++ [socketToMultiaddr s, withP2p (socketToMultiaddr s) localPeer] := by
+    unfold registerListen at hreg
+    split at hreg
+    · cases hreg
+    · cases hreg; rfl
+  have hmemL : listen'.contains (socketToMultiaddr s) = true := by
+    rw [hreg']; simp
+  refine ⟨supported_reported s q hun, ?_, ?_⟩
+  · unfold isLocalAddress
+    rw [takeWhile_reported, hmemL]; rfl
+  · unfold isLocalAddress
+    have : (socketToMultiaddr s).takeWhile (fun c => !c.isP2p) = socketToMultiaddr s := by
+      cases s with
+      | mk ip port => cases ip <;> simp [socketToMultiaddr, IpAddr.comp, Comp.isP2p, List.takeWhile]
+    rw [this, hmemL]; rfl
+
+example :
+    let lo : Ip := ⟨2130706433, false, true, false⟩
+    let m : Multiaddr := [.ip4 lo, .tcp 4001]
+    m ∈ reportedAddrs (bindAll none [some 4001] [[.ip4 lo, .tcp 0]]) ∧
+    registerListen 0 [] m = some [m, withP2p m 0] ∧
+    supportedTransport true (withP2p m 7) = true ∧ isLocalAddress [m, withP2p m 0] (withP2p m 7) = true := by decide
+
+/-- **The local address for an outbound connection reuses a listen port of the same kind or none**:
+without port reuse no local address is chosen; with it, the address is the unspecified address of
+the remote's family with the port of a listen address of the same family and loopback-ness, and
+`Err(())` is returned exactly when no listen address is of that kind. -/
+theorem local_dial_sound (reusePort : Bool) (bs : List Bound) (remote : IpAddr) :
+    (reusePort = false → localDial (dialAddresses reusePort bs) remote = .ok none) ∧
+    (∀ s, localDial (dialAddresses reusePort bs) remote = .ok (some s) →
+      reusePort = true ∧ s.ip.isUnspecified = true ∧ s.ip.isV4 = remote.isV4 ∧
+      ∃ a ∈ reportedSockets bs, a.port = s.port ∧ a.ip.isV4 = remote.isV4 ∧
+        a.ip.isLoopback = remote.isLoopback) ∧
+    (localDial (dialAddresses reusePort bs) remote = .error () ↔
+      reusePort = true ∧ ∀ a ∈ reportedSockets bs, dialCandidate remote a = false) := by
+  cases reusePort with
+  | false =>
+    refine ⟨fun _ => rfl, ?_, ?_⟩
+    · intro s h; simp [dialAddresses, localDial] at h
+    · simp [dialAddresses, localDial]
+  | true =>
+    refine ⟨fun h => (by cases h), ?_, ?_⟩
+    · intro s h
+      have := localDial_spec h
+      simp only [dialAddresses, if_true] at this
+      exact ⟨rfl, this⟩
+    · simp only [dialAddresses, if_true, true_and]
+      exact localDial_error
+
+example :
+    let lo : Ip := ⟨2130706433, false, true, false⟩
+    let eth : Ip := ⟨3221225986, false, false, false⟩
+    let bs : List Bound := [⟨⟨.v4 lo, 4001⟩, [⟨.v4 lo, 4001⟩]⟩, ⟨⟨.v4 eth, 4002⟩, [⟨.v4 eth, 4002⟩]⟩]
+    localDial (dialAddresses true bs) (.v4 ⟨134744072, false, false, true⟩) = .ok (some ⟨.v4 unspecified4, 4002⟩) ∧
+    localDial (dialAddresses true bs) (.v4 ⟨2130706434, false, true, false⟩) = .ok (some ⟨.v4 unspecified4, 4001⟩) ∧
+    localDial (dialAddresses true bs) (.v6 ⟨1, false, true, false⟩) = .error () ∧
+    localDial (dialAddresses false bs) (.v6 ⟨1, false, true, false⟩) = .ok none := by decide
+
+/-- **A DNS address resolves to an address of the family its kind demands**: `lookup_ip` keeps the
+port; `/dns4` yields an IPv4 and `/dns6` an IPv6 member of the resolver's answer, `/dns` any member;
+`IpVersionMismatch` is returned only if the answer has no member of the demanded family and
+`ResolveError` only if the lookup itself failed; socket addresses are returned unchanged
+(`LookupOk`, `Proofs/Addr/Listener.lean`, spells this out per kind of host). -/
+theorem lookup_respects_dns_type (h : Host) (port : Nat) (answer : Option (List IpAddr)) :
+    (∀ s, lookupIp h port answer = .ok s → s.port = port ∧ LookupOk h answer s) ∧
+    (lookupIp h port answer = .error .mismatch → ∃ l, answer = some l ∧ ∀ ip ∈ l, dnsWants h ip = false) ∧
+    (lookupIp h port answer = .error .resolve → answer = none) :=
+  ⟨fun _ hl => lookupIp_ok hl, lookupIp_mismatch, lookupIp_resolve⟩
+
+example :
+    let a4 : IpAddr := .v4 ⟨16909060, false, false, true⟩
+    let a6 : IpAddr := .v6 ⟨7, false, false, true⟩
+    lookupIp (.dns6 1) 30333 (some [a4, a6]) = .ok ⟨a6, 30333⟩ ∧
+    lookupIp (.dns4 1) 30333 (some [a6]) = .error .mismatch ∧
+    lookupIp (.dns 1) 30333 (some [a4, a6]) = .ok ⟨a4, 30333⟩ ∧
+    lookupIp (.dns 1) 30333 none = .error .resolve := by decide
+
+/-- A history of `PublicAddresses::{add_address, remove_address}` calls. -/
+inductive PubOp where
+  | add (a : Multiaddr)
+  | remove (a : Multiaddr)
+
+def pubRun (localPeer : Nat) : List Multiaddr → List PubOp → List Multiaddr
+  | set, [] => set
+  | set, .add a :: ops => pubRun localPeer (publicAdd localPeer set a).1 ops
+  | set, .remove a :: ops => pubRun localPeer (publicRemove set a).1 ops
+
+/-- **Every public address names the local peer**: after any history of additions and removals
+every address in the set ends in `/p2p/<local peer>`; an address naming another peer or the empty
+address is refused and leaves the set unchanged. -/
+theorem public_addresses_name_local (localPeer : Nat) (ops : List PubOp) :
+    (∀ a ∈ pubRun localPeer [] ops, lastP2p a = some localPeer) ∧
+    (∀ set a q, lastP2p a = some q → q ≠ localPeer →
+      publicAdd localPeer set a = (set, .error .differentPeer)) ∧
+    (∀ set, publicAdd localPeer set [] = (set, .error .empty)) := by
+  refine ⟨?_, ?_, ?_⟩
+  · have gen : ∀ (ops : List PubOp) (set : List Multiaddr), (∀ x ∈ set, lastP2p x = some localPeer) →
+        ∀ a ∈ pubRun localPeer set ops, lastP2p a = some localPeer := by
+      intro ops
+      induction ops with
+      | nil => intro set h; exact h
+      | cons op ops ih =>
+        intro set h
+        cases op with
+        | add a => exact ih _ (publicAdd_inv a h)
+        | remove a => exact ih _ (publicRemove_inv a h)
+    exact gen ops [] (by intro x hx; cases hx)
+  · intro set a q hq hne
+    have hne' : a ≠ [] := by intro h0; subst h0; simp [lastP2p] at hq
+    cases a with
+    | nil => exact absurd rfl hne'
+    | cons c cs => simp [publicAdd, ensureLocalPeer, hq, hne]
+  · intro set; rfl
+
+example :
+    pubRun 0 [] [.add [.dns 1, .tcp 5], .add [.dns 1, .tcp 5, .p2p 0], .add [.dns 2, .tcp 5, .p2p 9], .add [],
+      .add [.dns 3, .tcp 1], .remove [.dns 3, .tcp 1]] = [[.dns 1, .tcp 5, .p2p 0], [.dns 3, .tcp 1, .p2p 0]] := by
+  decide
+
+/-- **A dial requested through the handle reaches the manager only for a known, dialable peer**:
+`TransportManagerHandle::dial` queues a command only if the peer is not the local one, is known,
+is not already being dialed and has at least one remembered address; in every other case the
+manager state is untouched. The queued command runs `TransportManager::dial`, so the address list
+handed to the transport obeys `dial_order`. -/
+theorem handle_dial_guarded (m : Mgr) (peer : Nat) :
+    ((m.handleDial peer).2.1 = .queued →
+      peer ≠ m.localPeer ∧ (∃ c, lookupCtx peer m.peers = some c ∧ c.st = .disconnected ∧ c.store.recs ≠ []) ∧
+      (m.handleDial peer).1 = (m.dial peer).1 ∧ (m.handleDial peer).2.2 = some (m.dial peer).2) ∧
+    ((m.handleDial peer).2.1 ≠ .queued → (m.handleDial peer).1 = m ∧ (m.handleDial peer).2.2 = none) ∧
+    (peer = m.localPeer → (m.handleDial peer).2.1 = .self) := by
+  have hself : peer = m.localPeer → m.handleDialGuard peer = .self := by
+    intro h; simp [Mgr.handleDialGuard, h]
+  have hq : m.handleDialGuard peer = .queued →
+      peer ≠ m.localPeer ∧ ∃ c, lookupCtx peer m.peers = some c ∧ c.st = .disconnected ∧ c.store.recs ≠ [] := by
+    intro hg
+    unfold Mgr.handleDialGuard at hg
+    split at hg
+    · cases hg
+    · rename_i hne
+      refine ⟨hne, ?_⟩
+      split at hg
+      · cases hg
+      · rename_i c hc
+        split at hg
+        · cases hg
+        · cases hg
+        · rename_i hst
+          split at hg
+          · cases hg
+          · rename_i hrec
+            refine ⟨c, hc, hst, ?_⟩
+            intro h0; rw [h0] at hrec; simp at hrec
+  unfold Mgr.handleDial
+  cases hg : m.handleDialGuard peer
+  · exact ⟨fun h => (by cases h), fun _ => ⟨rfl, rfl⟩, fun _ => rfl⟩
+  · refine ⟨fun h => (by cases h), fun _ => ⟨rfl, rfl⟩, fun h => ?_⟩
+    rw [hself h] at hg; cases hg
+  · refine ⟨fun h => (by cases h), fun _ => ⟨rfl, rfl⟩, fun h => ?_⟩
+    rw [hself h] at hg; cases hg
+  · refine ⟨fun _ => ⟨(hq hg).1, (hq hg).2, rfl, rfl⟩, fun h => absurd rfl h, fun h => ?_⟩
+    rw [hself h] at hg; cases hg
+
+example :
+    let a : Multiaddr := [.ip4 ⟨10, false, false, false⟩, .tcp 1, .p2p 1]
+    let m : Mgr := { Mgr.init 0 true none 64 scores with peers := [(1, ⟨.disconnected, ⟨[⟨a, 0⟩], 64⟩⟩), (2, ⟨.disconnected, ⟨[], 64⟩⟩)] }
+    (m.handleDial 1).2 = (.queued, some (.started 0 (some [a]))) ∧ (m.handleDial 0).2 = (.self, none) ∧
+    (m.handleDial 2).2 = (.noAddress, none) ∧ (m.handleDial 3).2 = (.noAddress, none) ∧
+    ((m.handleDial 1).1.handleDial 1).2 = (.inProgress, none) := by decide
+
 end Litep2pVerif.Props.C10
 
 open Litep2pVerif.Props.C10 in
@@ -361,3 +605,17 @@ open Litep2pVerif.Props.C10 in
 #print axioms rediscovery_keeps_score
 open Litep2pVerif.Props.C10 in
 #print axioms dial_order
+open Litep2pVerif.Props.C10 in
+#print axioms listen_address_roundtrip
+open Litep2pVerif.Props.C10 in
+#print axioms listener_binds_only_sockets
+open Litep2pVerif.Props.C10 in
+#print axioms reported_dialable_and_local
+open Litep2pVerif.Props.C10 in
+#print axioms local_dial_sound
+open Litep2pVerif.Props.C10 in
+#print axioms lookup_respects_dns_type
+open Litep2pVerif.Props.C10 in
+#print axioms public_addresses_name_local
+open Litep2pVerif.Props.C10 in
+#print axioms handle_dial_guarded
